@@ -1,0 +1,802 @@
+	.file	"test_srcpos.c"
+	.text
+.Ltext0:
+	.file 0 "/repo/aldor/aldor/src" "test/test_srcpos.c"
+	.section	.rodata
+.LC0:
+	.string	"test_srcpos"
+	.text
+	.globl	srcposTest
+	.type	srcposTest, @function
+srcposTest:
+.LFB0:
+	.file 1 "test/test_srcpos.c"
+	.loc 1 10 1
+	.cfi_startproc
+	pushq	%rbp
+	.cfi_def_cfa_offset 16
+	.cfi_offset 6, -16
+	movq	%rsp, %rbp
+	.cfi_def_cfa_register 6
+	.loc 1 11 2
+	leaq	test_srcpos(%rip), %rax
+	movq	%rax, %rsi
+	leaq	.LC0(%rip), %rax
+	movq	%rax, %rdi
+	call	showTest@PLT
+	.loc 1 12 1
+	nop
+	popq	%rbp
+	.cfi_def_cfa 7, 8
+	ret
+	.cfi_endproc
+.LFE0:
+	.size	srcposTest, .-srcposTest
+	.section	.rodata
+.LC1:
+	.string	"sposLine"
+.LC2:
+	.string	"sposGlobalLine"
+.LC3:
+	.string	"sposChar"
+	.text
+	.type	test_srcpos, @function
+test_srcpos:
+.LFB1:
+	.loc 1 16 1
+	.cfi_startproc
+	pushq	%rbp
+	.cfi_def_cfa_offset 16
+	.cfi_offset 6, -16
+	movq	%rsp, %rbp
+	.cfi_def_cfa_register 6
+	subq	$32, %rsp
+	.loc 1 17 18
+	call	fnameStdin@PLT
+	movq	%rax, -8(%rbp)
+	.loc 1 18 13
+	call	osRandom@PLT
+	.loc 1 18 6
+	andl	$65535, %eax
+	movl	%eax, -12(%rbp)
+	.loc 1 19 13
+	call	osRandom@PLT
+	.loc 1 19 6
+	andl	$16383, %eax
+	movl	%eax, -16(%rbp)
+	.loc 1 20 12
+	call	osRandom@PLT
+	.loc 1 20 6
+	andl	$16383, %eax
+	movl	%eax, -20(%rbp)
+	.loc 1 21 15
+	movl	-20(%rbp), %eax
+	movslq	%eax, %rcx
+	movl	-16(%rbp), %eax
+	movslq	%eax, %rdx
+	movl	-12(%rbp), %eax
+	movslq	%eax, %rsi
+	movq	-8(%rbp), %rax
+	movq	%rax, %rdi
+	call	sposNew@PLT
+	movq	%rax, -32(%rbp)
+	.loc 1 23 33
+	movq	-32(%rbp), %rax
+	movq	%rax, %rdi
+	call	sposLine@PLT
+	.loc 1 23 2
+	movl	%eax, %edx
+	movl	-12(%rbp), %eax
+	movl	%eax, %esi
+	leaq	.LC1(%rip), %rax
+	movq	%rax, %rdi
+	call	testIntEqual@PLT
+	.loc 1 24 39
+	movq	-32(%rbp), %rax
+	movq	%rax, %rdi
+	call	sposGlobalLine@PLT
+	.loc 1 24 2
+	movl	%eax, %edx
+	movl	-16(%rbp), %eax
+	movl	%eax, %esi
+	leaq	.LC2(%rip), %rax
+	movq	%rax, %rdi
+	call	testIntEqual@PLT
+	.loc 1 25 32
+	movq	-32(%rbp), %rax
+	movq	%rax, %rdi
+	call	sposChar@PLT
+	.loc 1 25 2
+	movl	%eax, %edx
+	movl	-20(%rbp), %eax
+	movl	%eax, %esi
+	leaq	.LC3(%rip), %rax
+	movq	%rax, %rdi
+	call	testIntEqual@PLT
+	.loc 1 26 1
+	nop
+	leave
+	.cfi_def_cfa 7, 8
+	ret
+	.cfi_endproc
+.LFE1:
+	.size	test_srcpos, .-test_srcpos
+.Letext0:
+	.file 2 "/usr/lib/gcc/x86_64-linux-gnu/12/include/stddef.h"
+	.file 3 "./cport.h"
+	.file 4 "./axlgen.h"
+	.file 5 "./srcpos.h"
+	.file 6 "./opsys.h"
+	.file 7 "./fname.h"
+	.file 8 "test/testlib.h"
+	.section	.debug_info,"",@progbits
+.Ldebug_info0:
+	.long	0x228
+	.value	0x5
+	.byte	0x1
+	.byte	0x8
+	.long	.Ldebug_abbrev0
+	.uleb128 0xa
+	.long	.LASF30
+	.byte	0xc
+	.long	.LASF0
+	.long	.LASF1
+	.quad	.Ltext0
+	.quad	.Letext0-.Ltext0
+	.long	.Ldebug_line0
+	.uleb128 0xb
+	.byte	0x4
+	.byte	0x5
+	.string	"int"
+	.uleb128 0x2
+	.byte	0x1
+	.byte	0x8
+	.long	.LASF2
+	.uleb128 0x2
+	.byte	0x2
+	.byte	0x7
+	.long	.LASF3
+	.uleb128 0x2
+	.byte	0x4
+	.byte	0x7
+	.long	.LASF4
+	.uleb128 0x2
+	.byte	0x8
+	.byte	0x7
+	.long	.LASF5
+	.uleb128 0x2
+	.byte	0x1
+	.byte	0x6
+	.long	.LASF6
+	.uleb128 0x2
+	.byte	0x2
+	.byte	0x5
+	.long	.LASF7
+	.uleb128 0x2
+	.byte	0x8
+	.byte	0x5
+	.long	.LASF8
+	.uleb128 0x4
+	.long	0x6b
+	.uleb128 0x2
+	.byte	0x1
+	.byte	0x6
+	.long	.LASF9
+	.uleb128 0x2
+	.byte	0x4
+	.byte	0x4
+	.long	.LASF10
+	.uleb128 0x2
+	.byte	0x8
+	.byte	0x4
+	.long	.LASF11
+	.uleb128 0x5
+	.long	.LASF13
+	.byte	0x2
+	.byte	0xd6
+	.byte	0x1b
+	.long	0x4a
+	.uleb128 0x2
+	.byte	0x8
+	.byte	0x5
+	.long	.LASF12
+	.uleb128 0x6
+	.long	.LASF14
+	.value	0x13a
+	.byte	0x17
+	.long	0x4a
+	.uleb128 0x6
+	.long	.LASF15
+	.value	0x158
+	.byte	0x10
+	.long	0x80
+	.uleb128 0x6
+	.long	.LASF16
+	.value	0x16a
+	.byte	0xf
+	.long	0x66
+	.uleb128 0x5
+	.long	.LASF17
+	.byte	0x4
+	.byte	0x28
+	.byte	0x1b
+	.long	0xc3
+	.uleb128 0x4
+	.long	0xc8
+	.uleb128 0xc
+	.long	.LASF31
+	.byte	0x50
+	.byte	0x7
+	.byte	0xe
+	.byte	0x8
+	.long	0xe3
+	.uleb128 0xd
+	.long	.LASF32
+	.byte	0x7
+	.byte	0xf
+	.byte	0x9
+	.long	0xef
+	.byte	0
+	.byte	0
+	.uleb128 0x5
+	.long	.LASF18
+	.byte	0x4
+	.byte	0x29
+	.byte	0xf
+	.long	0x93
+	.uleb128 0xe
+	.long	0xab
+	.long	0xff
+	.uleb128 0xf
+	.long	0x4a
+	.byte	0x9
+	.byte	0
+	.uleb128 0x3
+	.long	.LASF19
+	.byte	0x23
+	.long	0x9f
+	.long	0x113
+	.uleb128 0x1
+	.long	0xe3
+	.byte	0
+	.uleb128 0x3
+	.long	.LASF20
+	.byte	0x1f
+	.long	0x9f
+	.long	0x127
+	.uleb128 0x1
+	.long	0xe3
+	.byte	0
+	.uleb128 0x8
+	.long	.LASF25
+	.byte	0x8
+	.long	0x141
+	.uleb128 0x1
+	.long	0xab
+	.uleb128 0x1
+	.long	0x2e
+	.uleb128 0x1
+	.long	0x2e
+	.byte	0
+	.uleb128 0x3
+	.long	.LASF21
+	.byte	0x22
+	.long	0x9f
+	.long	0x155
+	.uleb128 0x1
+	.long	0xe3
+	.byte	0
+	.uleb128 0x3
+	.long	.LASF22
+	.byte	0x1d
+	.long	0xe3
+	.long	0x178
+	.uleb128 0x1
+	.long	0xb7
+	.uleb128 0x1
+	.long	0x9f
+	.uleb128 0x1
+	.long	0x9f
+	.uleb128 0x1
+	.long	0x9f
+	.byte	0
+	.uleb128 0x10
+	.long	.LASF23
+	.byte	0x6
+	.value	0x18f
+	.byte	0xf
+	.long	0x9f
+	.uleb128 0x11
+	.long	.LASF24
+	.byte	0x7
+	.byte	0x1f
+	.byte	0x11
+	.long	0xb7
+	.uleb128 0x8
+	.long	.LASF26
+	.byte	0x15
+	.long	0x1a6
+	.uleb128 0x1
+	.long	0x66
+	.uleb128 0x1
+	.long	0x1a6
+	.byte	0
+	.uleb128 0x4
+	.long	0x1ab
+	.uleb128 0x12
+	.uleb128 0x13
+	.long	.LASF33
+	.byte	0x1
+	.byte	0xf
+	.byte	0x1
+	.quad	.LFB1
+	.quad	.LFE1-.LFB1
+	.uleb128 0x1
+	.byte	0x9c
+	.long	0x211
+	.uleb128 0x7
+	.long	.LASF27
+	.byte	0x11
+	.byte	0xb
+	.long	0xb7
+	.uleb128 0x2
+	.byte	0x91
+	.sleb128 -24
+	.uleb128 0x7
+	.long	.LASF28
+	.byte	0x12
+	.byte	0x6
+	.long	0x2e
+	.uleb128 0x2
+	.byte	0x91
+	.sleb128 -28
+	.uleb128 0x7
+	.long	.LASF29
+	.byte	0x13
+	.byte	0x6
+	.long	0x2e
+	.uleb128 0x2
+	.byte	0x91
+	.sleb128 -32
+	.uleb128 0x9
+	.string	"cno"
+	.byte	0x14
+	.byte	0x6
+	.long	0x2e
+	.uleb128 0x2
+	.byte	0x91
+	.sleb128 -36
+	.uleb128 0x9
+	.string	"pos"
+	.byte	0x15
+	.byte	0x9
+	.long	0xe3
+	.uleb128 0x2
+	.byte	0x91
+	.sleb128 -48
+	.byte	0
+	.uleb128 0x14
+	.long	.LASF34
+	.byte	0x1
+	.byte	0x9
+	.byte	0x6
+	.quad	.LFB0
+	.quad	.LFE0-.LFB0
+	.uleb128 0x1
+	.byte	0x9c
+	.byte	0
+	.section	.debug_abbrev,"",@progbits
+.Ldebug_abbrev0:
+	.uleb128 0x1
+	.uleb128 0x5
+	.byte	0
+	.uleb128 0x49
+	.uleb128 0x13
+	.byte	0
+	.byte	0
+	.uleb128 0x2
+	.uleb128 0x24
+	.byte	0
+	.uleb128 0xb
+	.uleb128 0xb
+	.uleb128 0x3e
+	.uleb128 0xb
+	.uleb128 0x3
+	.uleb128 0xe
+	.byte	0
+	.byte	0
+	.uleb128 0x3
+	.uleb128 0x2e
+	.byte	0x1
+	.uleb128 0x3f
+	.uleb128 0x19
+	.uleb128 0x3
+	.uleb128 0xe
+	.uleb128 0x3a
+	.uleb128 0x21
+	.sleb128 5
+	.uleb128 0x3b
+	.uleb128 0xb
+	.uleb128 0x39
+	.uleb128 0x21
+	.sleb128 15
+	.uleb128 0x27
+	.uleb128 0x19
+	.uleb128 0x49
+	.uleb128 0x13
+	.uleb128 0x3c
+	.uleb128 0x19
+	.uleb128 0x1
+	.uleb128 0x13
+	.byte	0
+	.byte	0
+	.uleb128 0x4
+	.uleb128 0xf
+	.byte	0
+	.uleb128 0xb
+	.uleb128 0x21
+	.sleb128 8
+	.uleb128 0x49
+	.uleb128 0x13
+	.byte	0
+	.byte	0
+	.uleb128 0x5
+	.uleb128 0x16
+	.byte	0
+	.uleb128 0x3
+	.uleb128 0xe
+	.uleb128 0x3a
+	.uleb128 0xb
+	.uleb128 0x3b
+	.uleb128 0xb
+	.uleb128 0x39
+	.uleb128 0xb
+	.uleb128 0x49
+	.uleb128 0x13
+	.byte	0
+	.byte	0
+	.uleb128 0x6
+	.uleb128 0x16
+	.byte	0
+	.uleb128 0x3
+	.uleb128 0xe
+	.uleb128 0x3a
+	.uleb128 0x21
+	.sleb128 3
+	.uleb128 0x3b
+	.uleb128 0x5
+	.uleb128 0x39
+	.uleb128 0xb
+	.uleb128 0x49
+	.uleb128 0x13
+	.byte	0
+	.byte	0
+	.uleb128 0x7
+	.uleb128 0x34
+	.byte	0
+	.uleb128 0x3
+	.uleb128 0xe
+	.uleb128 0x3a
+	.uleb128 0x21
+	.sleb128 1
+	.uleb128 0x3b
+	.uleb128 0xb
+	.uleb128 0x39
+	.uleb128 0xb
+	.uleb128 0x49
+	.uleb128 0x13
+	.uleb128 0x2
+	.uleb128 0x18
+	.byte	0
+	.byte	0
+	.uleb128 0x8
+	.uleb128 0x2e
+	.byte	0x1
+	.uleb128 0x3f
+	.uleb128 0x19
+	.uleb128 0x3
+	.uleb128 0xe
+	.uleb128 0x3a
+	.uleb128 0x21
+	.sleb128 8
+	.uleb128 0x3b
+	.uleb128 0xb
+	.uleb128 0x39
+	.uleb128 0x21
+	.sleb128 6
+	.uleb128 0x27
+	.uleb128 0x19
+	.uleb128 0x3c
+	.uleb128 0x19
+	.uleb128 0x1
+	.uleb128 0x13
+	.byte	0
+	.byte	0
+	.uleb128 0x9
+	.uleb128 0x34
+	.byte	0
+	.uleb128 0x3
+	.uleb128 0x8
+	.uleb128 0x3a
+	.uleb128 0x21
+	.sleb128 1
+	.uleb128 0x3b
+	.uleb128 0xb
+	.uleb128 0x39
+	.uleb128 0xb
+	.uleb128 0x49
+	.uleb128 0x13
+	.uleb128 0x2
+	.uleb128 0x18
+	.byte	0
+	.byte	0
+	.uleb128 0xa
+	.uleb128 0x11
+	.byte	0x1
+	.uleb128 0x25
+	.uleb128 0xe
+	.uleb128 0x13
+	.uleb128 0xb
+	.uleb128 0x3
+	.uleb128 0x1f
+	.uleb128 0x1b
+	.uleb128 0x1f
+	.uleb128 0x11
+	.uleb128 0x1
+	.uleb128 0x12
+	.uleb128 0x7
+	.uleb128 0x10
+	.uleb128 0x17
+	.byte	0
+	.byte	0
+	.uleb128 0xb
+	.uleb128 0x24
+	.byte	0
+	.uleb128 0xb
+	.uleb128 0xb
+	.uleb128 0x3e
+	.uleb128 0xb
+	.uleb128 0x3
+	.uleb128 0x8
+	.byte	0
+	.byte	0
+	.uleb128 0xc
+	.uleb128 0x13
+	.byte	0x1
+	.uleb128 0x3
+	.uleb128 0xe
+	.uleb128 0xb
+	.uleb128 0xb
+	.uleb128 0x3a
+	.uleb128 0xb
+	.uleb128 0x3b
+	.uleb128 0xb
+	.uleb128 0x39
+	.uleb128 0xb
+	.uleb128 0x1
+	.uleb128 0x13
+	.byte	0
+	.byte	0
+	.uleb128 0xd
+	.uleb128 0xd
+	.byte	0
+	.uleb128 0x3
+	.uleb128 0xe
+	.uleb128 0x3a
+	.uleb128 0xb
+	.uleb128 0x3b
+	.uleb128 0xb
+	.uleb128 0x39
+	.uleb128 0xb
+	.uleb128 0x49
+	.uleb128 0x13
+	.uleb128 0x38
+	.uleb128 0xb
+	.byte	0
+	.byte	0
+	.uleb128 0xe
+	.uleb128 0x1
+	.byte	0x1
+	.uleb128 0x49
+	.uleb128 0x13
+	.uleb128 0x1
+	.uleb128 0x13
+	.byte	0
+	.byte	0
+	.uleb128 0xf
+	.uleb128 0x21
+	.byte	0
+	.uleb128 0x49
+	.uleb128 0x13
+	.uleb128 0x2f
+	.uleb128 0xb
+	.byte	0
+	.byte	0
+	.uleb128 0x10
+	.uleb128 0x2e
+	.byte	0
+	.uleb128 0x3f
+	.uleb128 0x19
+	.uleb128 0x3
+	.uleb128 0xe
+	.uleb128 0x3a
+	.uleb128 0xb
+	.uleb128 0x3b
+	.uleb128 0x5
+	.uleb128 0x39
+	.uleb128 0xb
+	.uleb128 0x27
+	.uleb128 0x19
+	.uleb128 0x49
+	.uleb128 0x13
+	.uleb128 0x3c
+	.uleb128 0x19
+	.byte	0
+	.byte	0
+	.uleb128 0x11
+	.uleb128 0x2e
+	.byte	0
+	.uleb128 0x3f
+	.uleb128 0x19
+	.uleb128 0x3
+	.uleb128 0xe
+	.uleb128 0x3a
+	.uleb128 0xb
+	.uleb128 0x3b
+	.uleb128 0xb
+	.uleb128 0x39
+	.uleb128 0xb
+	.uleb128 0x27
+	.uleb128 0x19
+	.uleb128 0x49
+	.uleb128 0x13
+	.uleb128 0x3c
+	.uleb128 0x19
+	.byte	0
+	.byte	0
+	.uleb128 0x12
+	.uleb128 0x15
+	.byte	0
+	.uleb128 0x27
+	.uleb128 0x19
+	.byte	0
+	.byte	0
+	.uleb128 0x13
+	.uleb128 0x2e
+	.byte	0x1
+	.uleb128 0x3
+	.uleb128 0xe
+	.uleb128 0x3a
+	.uleb128 0xb
+	.uleb128 0x3b
+	.uleb128 0xb
+	.uleb128 0x39
+	.uleb128 0xb
+	.uleb128 0x27
+	.uleb128 0x19
+	.uleb128 0x11
+	.uleb128 0x1
+	.uleb128 0x12
+	.uleb128 0x7
+	.uleb128 0x40
+	.uleb128 0x18
+	.uleb128 0x7c
+	.uleb128 0x19
+	.uleb128 0x1
+	.uleb128 0x13
+	.byte	0
+	.byte	0
+	.uleb128 0x14
+	.uleb128 0x2e
+	.byte	0
+	.uleb128 0x3f
+	.uleb128 0x19
+	.uleb128 0x3
+	.uleb128 0xe
+	.uleb128 0x3a
+	.uleb128 0xb
+	.uleb128 0x3b
+	.uleb128 0xb
+	.uleb128 0x39
+	.uleb128 0xb
+	.uleb128 0x27
+	.uleb128 0x19
+	.uleb128 0x11
+	.uleb128 0x1
+	.uleb128 0x12
+	.uleb128 0x7
+	.uleb128 0x40
+	.uleb128 0x18
+	.uleb128 0x7c
+	.uleb128 0x19
+	.byte	0
+	.byte	0
+	.byte	0
+	.section	.debug_aranges,"",@progbits
+	.long	0x2c
+	.value	0x2
+	.long	.Ldebug_info0
+	.byte	0x8
+	.byte	0
+	.value	0
+	.value	0
+	.quad	.Ltext0
+	.quad	.Letext0-.Ltext0
+	.quad	0
+	.quad	0
+	.section	.debug_line,"",@progbits
+.Ldebug_line0:
+	.section	.debug_str,"MS",@progbits,1
+.LASF33:
+	.string	"test_srcpos"
+.LASF13:
+	.string	"size_t"
+.LASF14:
+	.string	"ULong"
+.LASF19:
+	.string	"sposChar"
+.LASF16:
+	.string	"String"
+.LASF21:
+	.string	"sposLine"
+.LASF10:
+	.string	"float"
+.LASF27:
+	.string	"file"
+.LASF2:
+	.string	"unsigned char"
+.LASF34:
+	.string	"srcposTest"
+.LASF5:
+	.string	"long unsigned int"
+.LASF3:
+	.string	"short unsigned int"
+.LASF20:
+	.string	"sposGlobalLine"
+.LASF25:
+	.string	"testIntEqual"
+.LASF18:
+	.string	"SrcPos"
+.LASF26:
+	.string	"showTest"
+.LASF32:
+	.string	"partv"
+.LASF11:
+	.string	"double"
+.LASF22:
+	.string	"sposNew"
+.LASF28:
+	.string	"flno"
+.LASF4:
+	.string	"unsigned int"
+.LASF9:
+	.string	"char"
+.LASF30:
+	.string	"GNU C99 12.2.0 -mtune=generic -march=x86-64 -g -O0 -std=c99 -fasynchronous-unwind-tables"
+.LASF29:
+	.string	"glno"
+.LASF23:
+	.string	"osRandom"
+.LASF12:
+	.string	"long long int"
+.LASF31:
+	.string	"fileName"
+.LASF7:
+	.string	"short int"
+.LASF17:
+	.string	"FileName"
+.LASF8:
+	.string	"long int"
+.LASF15:
+	.string	"Length"
+.LASF6:
+	.string	"signed char"
+.LASF24:
+	.string	"fnameStdin"
+	.section	.debug_line_str,"MS",@progbits,1
+.LASF1:
+	.string	"/repo/aldor/aldor/src"
+.LASF0:
+	.string	"test/test_srcpos.c"
+	.ident	"GCC: (Debian 12.2.0-14+deb12u1) 12.2.0"
+	.section	.note.GNU-stack,"",@progbits
